@@ -83,6 +83,7 @@ class Cfg:
         self.setcells = True
         self.max_cleanups = 4
         self.assert_fn = True
+        self.skip_decorators = True
         self.odd_skip_reasons = True
         self.exotic_patch_targets = True
         self.__dict__.update(kw)
@@ -270,6 +271,8 @@ def gen_program(tape, cfg):
     prog = {"class_skip": None, "method_skip": None, "xfail_decorator": False, "handlers": []}
     if cfg.decorators:
         d = t.draw("program", 16, "decorator")
+        if d in (1, 2, 3, 4) and not cfg.skip_decorators:
+            d = 0
         if d == 1:
             prog["class_skip"] = "class-skip-" + g.marker()
         elif d == 2:
